@@ -531,6 +531,12 @@ class ObsInterp(ObjInterp):
             i0 = tu.strip(init) if init is not None else None
             fresh = i0 is not None and i0.get('kind') == 'CXXConstructExpr' and not tu.kids(i0)
             d['stamp:' + me] = 'fresh' if fresh else 'copied'
+            if not fresh and i0 is not None:
+                for y in tu.walk(i0):
+                    if self.is_field(y, self.F.last_observed):
+                        o_ = self.base_obj(y, fr)
+                        if o_ and o_ not in OBJS:
+                            d['sp:' + me] = d.get('sp:' + o_, o_)       # whose poll state this stamp carries
             return [freeze(d)]
         if init is not None and tu.strip(init).get('kind') == 'CXXConstructExpr':
             callee = tu.callee_fn(tu.strip(init))
@@ -788,6 +794,12 @@ class ObsInterp(ObjInterp):
                         d['renewed:' + so[1]] = False
                         return [freeze(d)]
                     self.und('lastObserved is assigned from the notification stamp of another observable at %s' % tu.loc(n))
+                elif so and so[0] == 'O' and sa and sa[0] == 'O' and so[1] != sa[1]:
+                    # the poll state of another observer is taken over
+                    d = self.ev(st, 'copystamp(%s<-%s)' % (so[1], sa[1]))
+                    d['renewed:' + so[1]] = bool(sa[2])
+                    d['sp:' + so[1]] = d.get('sp:' + sa[1], sa[1])
+                    return [freeze(d)]
                 return [st]
             if sd.get('rec') == TS or q in ('std::move', 'std::forward', 'std::addressof'):
                 return [st]
@@ -1051,6 +1063,15 @@ def check_observer(ctx, tu, F, analysed, all_tus=()):
                                      % (d.get('this'), d0.get(src))))
                 if role.startswith('copy') and src != 'this' and d.get(src) != d0.get(src):
                     problems.append(('source-modified', 'copy changed the observee of the source'))
+                # re-targeting: an observer that starts to observe another observable must not keep judging it by the time of its own
+                # last poll of the OLD one: it takes over the source's poll state (or starts afresh with a renewed stamp)
+                if role.endswith('assign') and src != 'this' and d.get('this') in OBJS and d.get('this') != d0.get('this'):
+                    evs_ = list(d['$ev'])
+                    if d.get('sp:this') != src and 'renew(this.lastObserved)' not in evs_:
+                        problems.append(('stale-poll-state', 'the assignment re-targets the observer from %s to %s but leaves lastObserved as it was '
+                                         '(neither copied from the source nor renewed): the observer judges its new observable by the time of '
+                                         'its last poll of the old one - notifications the source already consumed are reported again, or a '
+                                         'pending one is missed (events %s)' % (d0.get('this'), d.get('this'), evs_)))
             if role == 'wasNotified':
                 evs = list(d['$ev'])
                 if d0['this'] == 'null':
@@ -1640,6 +1661,12 @@ def remove_by_paths(tu, f, F, al):
             sd, obj, a = tu.call_parts(c)
             if sd.get('q', '').split('::')[-1] == 'empty' and obj is not None and list_expr(tu, obj, F, al):
                 return ('empty', pol)
+        if c.get('kind') == 'CXXOperatorCallExpr' and tu.sd(c).get('q', '').split('::')[-1] in ('operator!=', 'operator=='):
+            a_ = tu.kids(c)[1:]
+            if len(a_) == 2:
+                for x, y in ((a_[0], a_[1]), (a_[1], a_[0])):
+                    if tu.ref_decl(unwrap_iter(tu, x)) in finds and is_list_end(tu, y, F, al, ('end', 'cend')):
+                        return ('found', pol == tu.sd(c)['q'].endswith('!='))
         if c.get('kind') == 'BinaryOperator' and c.get('opcode') in ('==', '!='):
             l, r = tu.kids(c)
             for x, y in ((l, r), (r, l)):
@@ -1651,6 +1678,16 @@ def remove_by_paths(tu, f, F, al):
                         return ('back-is-arg', pol == (c['opcode'] == '=='))
         return None
 
+    # iterator locals holding std::find(L.begin(), L.end(), &arg)
+    finds = set()
+    for x in tu.walk(tu.body(f)):
+        if x.get('kind') == 'VarDecl' and tu.kids(x):
+            fi = unwrap_iter(tu, tu.kids(x)[-1])
+            if fi is not None and fi.get('kind') == 'CallExpr' and tu.sd(fi).get('q') == 'std::find':
+                s_, o_, fa = tu.call_parts(fi)
+                if len(fa) == 3 and is_list_end(tu, fa[0], F, al, ('begin', 'cbegin')) and is_list_end(tu, fa[1], F, al, ('end', 'cend')) \
+                        and addr_of_param(tu, fa[2], f):
+                    finds.add(x['id'])
     targets = set()
     for x in tu.walk(tu.body(f)):
         if x.get('kind') == 'VarDecl' and tu.kids(x) and addr_of_param(tu, tu.kids(x)[-1], f) and \
@@ -1683,7 +1720,12 @@ def remove_by_paths(tu, f, F, al):
                 if ck is not None:
                     facts[ck[0]] = (ck[1] == (taken == 0))
         names = [m[0] for m in muts]
-        if not muts and not removes:
+        if not muts and not removes and facts.get('found') is False:
+            verdicts.append(('ok', 'std::find did not find the observer: nothing to remove'))
+        elif names == ['erase'] and not removes and len(muts[0][2]) == 1 and tu.ref_decl(unwrap_iter(tu, muts[0][2][0])) in finds \
+                and facts.get('found') is True:
+            verdicts.append(('ok', 'erase(find(begin, end, &arg)) when found (an observer is listed once)'))
+        elif not muts and not removes:
             verdicts.append(('ok', 'empty list: nothing to remove') if facts.get('empty') is True else None)
         elif names == ['pop_back'] and not removes:
             verdicts.append(('ok', 'pop_back when back() == &arg') if facts.get('back-is-arg') is True else None)
@@ -1814,7 +1856,27 @@ def check_observable(ctx, tu, F, analysed):
                 good_remove = r
         mutating = [c for c in calls if c[0] not in ('begin', 'end', 'cbegin', 'cend', 'size', 'empty')]
         bypath = remove_by_paths(tu, f, F, al)
-        if bypath is not None and bypath[0] == 'violation':
+        # a binary search (lower_bound / upper_bound / equal_range / binary_search) needs a list sorted by the searched order; the list
+        # is in registration order unless registerObserver keeps it sorted
+        bsearch = [x for x in tu.walk(tu.body(f)) if x.get('kind') == 'CallExpr' and tu.sd(x).get('q') in (
+            'std::lower_bound', 'std::upper_bound', 'std::equal_range', 'std::binary_search') and tu.kids(x)[1:] and
+            is_list_end(tu, tu.kids(x)[1], F, al, ('begin', 'cbegin'))]
+        reg_appends = False
+        if byq.get(REG):
+            fr_ = follow_forwarding(tu, byq[REG][0])
+            rc_ = list_calls(tu, fr_, F, list_aliases(tu, fr_, F))
+            reg_appends = bool(rc_) and all(c[0] in ('push_back', 'emplace_back') for c in rc_) and not any(
+                y.get('kind') == 'CallExpr' and tu.sd(y).get('q') in ('std::sort', 'std::stable_sort', 'std::inplace_merge')
+                for y in tu.walk(tu.body(fr_)))
+        if bsearch and reg_appends:
+            ctx.violation(R1, inst, 'removeObserver locates the entry with %s, a binary search that requires the list to be sorted by address, '
+                          'but registerObserver appends with push_back (the list is in registration order): the search can miss an observer '
+                          'that is in the list, it stays registered after its destruction and ~Observable writes through the dangling '
+                          'Observer*' % tu.sd(bsearch[0]).get('q'), tu.loc(bsearch[0]),
+                          key='%s|%s|%s|binary-search-unsorted' % (R1, file, inst))
+        elif bsearch:
+            ctx.undecided(R1, inst, 'removeObserver uses a binary search; whether the list is kept sorted is not modelled', tu.fn_loc(f))
+        elif bypath is not None and bypath[0] == 'violation':
             ctx.violation(R1, inst, bypath[2], tu.fn_loc(f), key='%s|%s|%s|%s' % (R1, file, inst, bypath[1]))
         elif bypath is not None and len(cfg_paths(tu.cfg(f))) > 1:
             ctx.ok(R1, inst, 'every path removes exactly the given observer: ' + bypath[1], tu.fn_loc(f))
